@@ -55,6 +55,9 @@ func (self Node) Len() (int, error) {
 }
 
 func (self Node) len() (int, error) {
+	if self.short() {
+		return -1, errShortData
+	}
 	switch self.t {
 	case thrift.LIST, thrift.SET:
 		b := rt.BytesFrom(unsafe.Pointer(uintptr(self.v)+uintptr(1)), 4, 4)
@@ -66,6 +69,33 @@ func (self Node) len() (int, error) {
 		return -1, errNode(meta.ErrUnsupportedType, "", nil)
 	}
 }
+
+// short tells if the node's data is shorter than its type requires
+func (self Node) short() bool {
+	switch self.t {
+	case thrift.BOOL, thrift.BYTE:
+		return self.l < 1
+	case thrift.I16:
+		return self.l < 2
+	case thrift.I32:
+		return self.l < 4
+	case thrift.I64, thrift.DOUBLE:
+		return self.l < 8
+	case thrift.STRING:
+		if self.l < 4 {
+			return true
+		}
+		n := thrift.BinaryEncoding{}.DecodeInt32(rt.BytesFrom(self.v, 4, 4))
+		return n < 0 || int(n) > self.l-4
+	case thrift.LIST, thrift.SET:
+		return self.l < 5
+	case thrift.MAP:
+		return self.l < 6
+	}
+	return false
+}
+
+var errShortData = errNode(meta.ErrRead, "data is not enough", nil)
 
 func (self Node) raw() []byte {
 	return rt.BytesFrom(self.v, self.l, self.l)
@@ -88,6 +118,9 @@ func (self Node) Byte() (byte, error) {
 }
 
 func (self Node) byte() (byte, error) {
+	if self.short() {
+		return 0, errShortData
+	}
 	switch self.t {
 	case thrift.BYTE:
 		return byte(thrift.BinaryEncoding{}.DecodeByte(rt.BytesFrom(self.v, int(self.l), int(self.l)))), nil
@@ -105,6 +138,9 @@ func (self Node) Bool() (bool, error) {
 }
 
 func (self Node) bool() (bool, error) {
+	if self.short() {
+		return false, errShortData
+	}
 	switch self.t {
 	case thrift.BOOL:
 		return thrift.BinaryEncoding{}.DecodeBool(rt.BytesFrom(self.v, int(self.l), int(self.l))), nil
@@ -122,6 +158,9 @@ func (self Node) Int() (int, error) {
 }
 
 func (self Node) int() (int, error) {
+	if self.short() {
+		return 0, errShortData
+	}
 	buf := rt.BytesFrom(self.v, int(self.l), int(self.l))
 	switch self.t {
 	case thrift.I08:
@@ -146,6 +185,9 @@ func (self Node) Float64() (float64, error) {
 }
 
 func (self Node) float64() (float64, error) {
+	if self.short() {
+		return 0, errShortData
+	}
 	switch self.t {
 	case thrift.DOUBLE:
 		return thrift.BinaryEncoding{}.DecodeDouble(rt.BytesFrom(self.v, int(self.l), int(self.l))), nil
@@ -163,6 +205,9 @@ func (self Node) String() (string, error) {
 }
 
 func (self Node) string() (string, error) {
+	if self.short() {
+		return "", errShortData
+	}
 	switch self.t {
 	case thrift.STRING:
 		str := thrift.BinaryEncoding{}.DecodeString(rt.BytesFrom(self.v, int(self.l), int(self.l)))
@@ -186,6 +231,9 @@ func (self Node) Binary() ([]byte, error) {
 }
 
 func (self Node) binary() ([]byte, error) {
+	if self.short() {
+		return nil, errShortData
+	}
 	switch self.t {
 	case thrift.STRING:
 		return thrift.BinaryEncoding{}.DecodeBytes(rt.BytesFrom(self.v, int(self.l), int(self.l))), nil
